@@ -75,6 +75,15 @@ theorem qe_representations_agree {K} [Field K] [LinearOrder K] [IsStrictOrderedR
       obtain ⟨p', hp', rfl⟩ := hp
       exact hflat p' hp'
 
+/-- a Spectrum efficiency, flat or not, gives exactly the electrons of the vector of its own samples at the call's wavelengths
+(`qe_asarray` replaces the Spectrum by `Spectrum.sample(wave, waveunit)`), in every pair of units -/
+theorem qe_spectrum_equals_its_samples {K} [Field K] [LinearOrder K] (nw : Nat) (img : Nat → Int → Int → K) (grid : List (K × K))
+    (su wu : Gen.WUnit) (wave : Nat → K) (i j : Int) :
+    ∃ a b, (QE.spectrumObj grid su wave wu).asArray nw = some a ∧
+      (QE.vector nw fun l => spectrumSample grid su (wave l) wu).asArray nw = some b ∧
+      collectCharge nw img a i j = collectCharge nw img b i j :=
+  ⟨_, _, rfl, by simp [QE.asArray], rfl⟩
+
 /-- non-vacuity: a flat spectrum at 1/2 given in nanometres on [400, 800] nm, asked at 0.5 and 0.7 micrometres -/
 example : spectrumSample (K := ℚ) [(400, 1/2), (600, 1/2), (800, 1/2)] .nm (1/2) .um = 1/2 ∧
     spectrumSample (K := ℚ) [(400, 1/4), (600, 3/4)] .nm (1/2) .um = 1/2 ∧
@@ -354,6 +363,13 @@ theorem adc_matches_source :
                     ("floor", "img"), ("clamp", "img < 0 -> 0"), ("cast", "img.astype(dtype)")] ∧
     Gen.adcOrderSource = [(0, "1"), (1, "gain.shape[0]"), (2, "1"), (3, "gain.shape[0]")] ∧
     Gen.adcEinsum = [(1, "ijk,i->jk"), (2, "ijk,jk->jk"), (3, "ijk,ijk->jk")] := by decide
+
+/-- the digitisation, run step by step in the order the SOURCE performs the steps (`Gen.adcSteps`: saturate, gain, floor, clamp,
+cast — regenerated), is the model's `adcValue`: a reordering in the source (clamp before the gain, cast before the clamp, floor
+before the gain …) makes the run ill-typed or a different number and this theorem fails -/
+theorem adc_follows_source_steps (cap : Option K) (g : List K) (x : K) :
+    adcFromSteps Int.floor cap g x = some (.inr (adcValue Int.floor cap g x)) := by
+  simp [adcFromSteps, Gen.adcSteps, List.foldlM, adcStep, adcValue]
 
 /-- the power cube built by the source's loop raises slice `d` of an order-`n` model to `n − d` (highest power first, the last
 slice stays linear, there is no constant term) — about the regenerated loop bounds and exponent -/
